@@ -573,9 +573,42 @@ class Env:
 # instances were built, used or discarded before or after it in the same process.
 
 SET_OF = {"2014": "2014", "2018": "2018", "default-arg": "2014"}  # constructor spelling -> CODATA set
+for _b in ("2014", "2018"):
+    for _v in ("copy", "deepcopy", "pickle"):
+        SET_OF[f"{_b}:{_v}"] = _b
+
+
+def call_get(c, sent, tup: bool):
+    """get() through one of the call forms its documented signature get(physical_constant, return_tuple=False) allows — flag by keyword,
+    flag positionally, everything by keyword, (float form: flag omitted) — chosen by a checksum of the name, so a replay takes the same form"""
+    import zlib
+
+    k = zlib.crc32(sent.encode("utf-8", "replace")) % 3
+    if k == 0:
+        return c.get(sent, return_tuple=True) if tup else c.get(sent)
+    if k == 1:
+        return c.get(sent, True) if tup else c.get(sent, False)
+    return c.get(physical_constant=sent, return_tuple=tup)
+
+
+def _derive(c, via: str):
+    """the same context taken through the object protocol an application may well use: copy.copy / copy.deepcopy / a pickle round trip"""
+    import copy
+    import pickle
+
+    if via == "copy":
+        return copy.copy(c)
+    if via == "deepcopy":
+        return copy.deepcopy(c)
+    if via == "pickle":
+        return pickle.loads(pickle.dumps(c))
+    raise ValueError(via)
 
 
 def construct(env, how: str):
+    if ":" in how:  # "2018:deepcopy": a fresh context of that set, taken through the object protocol before anything else touches it
+        base, via = how.split(":")
+        return _derive(construct(env, base), via)
     if how == "default-arg":
         return env.cls()  # PhysicalConstantsContext() -- documented default CODATA2014
     return env.cls("CODATA" + how)
@@ -713,7 +746,8 @@ def describe_history(seq, upto: int) -> str:
     steps = []
     for i, stp in enumerate(seq["steps"][: upto + 1]):
         if stp["do"] == "new":
-            steps.append(f"#{i} construct PhysicalConstantsContext({'' if stp['how'] == 'default-arg' else repr('CODATA' + stp['how'])})"
+            steps.append(f"#{i} construct PhysicalConstantsContext({'' if stp['how'] == 'default-arg' else repr('CODATA' + stp['how'].split(':')[0])})"
+                         + (f" and take it through {stp['how'].split(':')[1]}" if ":" in stp["how"] else "")
                          + (f" at the address of a discarded, fully used CODATA{stp['dead']} context" if stp.get("dead") else ""))
         else:
             steps.append(f"#{i} {stp['what']}({stp.get('arg')!r}) on {stp['on'] if isinstance(stp['on'], str) else 'instance ' + str(stp['on'])}")
@@ -754,6 +788,9 @@ def make_sequences(rng, ctx: Ctx):
         [U("default", "repr"), N("2018"), U("2018", "repr"), N("default-arg")],
         [U("default", "siblings"), N("2014"), N("2018")],
         [N("2018"), U(0, "ureg"), U(0, "conv"), N("2018"), U("default", "aux"), N("2014"), N("2018")],
+    ] + [
+        # contexts taken through the object protocol (copy / deepcopy / pickle round trip of a fresh context): still a context of that set
+        [N("2018:deepcopy"), N("2014:pickle"), N("2018:pickle"), N("2018:copy"), N("2014:deepcopy"), N("2014:copy")],
     ] + [
         # a context built at the address of a discarded, fully used context of the OTHER set (see construct_on_dead)
         [{"do": "new", "how": "2018", "dead": "2014"}, {"do": "new", "how": "2014", "dead": "2018"}, {"do": "new", "how": "default-arg", "dead": "2018"}],
@@ -858,10 +895,10 @@ def impl_of(env: Env, case) -> str:
     mode, sent = case["mode"], case["sent"]
     try:
         if mode == "get":
-            v = c.get(sent)
+            v = call_get(c, sent, False)
             return f"ok f {fbits(v)}" if isinstance(v, float) else f"ok NOT-FLOAT {v!r}"
         if mode == "tuple":
-            return show_datum(c.get(sent, return_tuple=True))
+            return show_datum(call_get(c, sent, True))
         if mode == "item":
             return show_datum(c.pc[sent])
         if mode == "attr":
@@ -942,7 +979,7 @@ def oracle(env: Env, case, got: str):
         return finds
     # fetch the objects again (the rendered line is for the model diff; the oracle looks at the objects)
     if mode in ("tuple", "item"):
-        q = c.get(case["sent"], return_tuple=True) if mode == "tuple" else c.pc[case["sent"]]
+        q = call_get(c, case["sent"], True) if mode == "tuple" else c.pc[case["sent"]]
         d = q.data
         if not isinstance(d, Decimal):
             bad("oracle:not_decimal", repr(d), "decimal.Decimal", "Datum.data of a physical constant must be a Decimal")
@@ -970,7 +1007,7 @@ def oracle(env: Env, case, got: str):
                 kind = "oracle:alias_definition" if tag == "alias" else "oracle:legacy_derived"
                 bad(kind, str(d), f"{float(want)!r} (exact {want.numerator}/{want.denominator})", f"{name} differs from its documented definition evaluated on the {spec.year} NIST values by more than 1e-26 relative")
     else:
-        f = c.get(case["sent"]) if mode == "get" else getattr(c, case["sent"])
+        f = call_get(c, case["sent"], False) if mode == "get" else getattr(c, case["sent"])
         q = c.pc.get(name.lower())
         if q is not None and isinstance(q.data, Decimal):
             prob = nearest_double_problem(f, q.data)
